@@ -367,7 +367,16 @@ func (d *dumper) dumpFunc(fn *ssa.Function) {
 			case *ssa.Range:
 				ij.AT = d.tid(x.X.Type())
 			case *ssa.Select:
-				ij.Sub = "select"
+				dirs := []string{}
+				for _, st := range x.States {
+					if st.Dir == types.SendOnly {
+						dirs = append(dirs, "send")
+					} else {
+						dirs = append(dirs, "recv")
+					}
+				}
+				ij.Sub = strings.Join(dirs, ",")
+				ij.Flag = x.Blocking
 			}
 			if _, isCall := in.(ssa.CallInstruction); !isCall {
 				for _, o := range ops {
